@@ -175,8 +175,14 @@ def worker_main(argv):
     cap = getattr(mod, "TIME_CAP", {"quick": 900, "thorough": 6 * 3600})[tier]
     state = {"n": 0}
 
+    shrink_budget = getattr(mod, "SHRINK_BUDGET", {"quick": 45, "thorough": 900})[tier]
+
     def handle(case):
         if stats.harness_error is not None:
+            return
+        if stats.violation is not None and time.time() - state.get("t_violation", t0) > shrink_budget:
+            # bounded shrinking: after the budget every further attempt "passes" instantly, so the
+            # shrinker stops; the smallest failing case seen so far is kept as the replay
             return
         if time.time() - t0 > cap:
             stats.budget_skipped += 1
@@ -212,6 +218,8 @@ def worker_main(argv):
             if kf is not None:
                 stats.known[kf["id"]] = stats.known.get(kf["id"], 0) + 1
                 return
+            if stats.violation is None:
+                state["t_violation"] = time.time()
             stats.violation = {"case": case, "reason": out.reason, "bucket": out.bucket}
             stats.n_violating_calls += 1
             raise AssertionError(out.reason)
@@ -244,7 +252,7 @@ def worker_main(argv):
                 if stats.violation is None:
                     stats.harness_error = traceback.format_exc()[-4000:]
         else:
-            phases = (Phase.generate,) if tier == "quick" else (Phase.generate, Phase.shrink)
+            phases = (Phase.generate, Phase.shrink)
             sett = settings(
                 max_examples=n,
                 database=None,
